@@ -17,6 +17,7 @@ mod c10;
 mod c11;
 mod c12;
 mod c13;
+mod c13m;
 mod c14;
 mod c15;
 mod c16;
